@@ -485,6 +485,34 @@ def _fold_constants(fn: ast.AST) -> None:
                 n.body = [ast.Pass()]
 
 
+def _fold_inplace_differences(fn: ast.AST) -> None:
+    """`X = P` directly followed by `X -= E` / `X.difference_update(E)` (X bound nowhere else): read as `X = P - E`.  Which elements X
+    holds is all the search model asks; that the statement also changes the object P names (a helper that trims the caller's set in
+    place) is a purity question of another property."""
+    stores: dict[str, int] = {}
+    for n in ast.walk(fn):
+        if isinstance(n, ast.Name) and isinstance(n.ctx, (ast.Store, ast.Del)):
+            stores[n.id] = stores.get(n.id, 0) + 1
+    for blk in _blocks(fn):
+        i = 0
+        while i + 1 < len(blk):
+            a, b = blk[i], blk[i + 1]
+            i += 1
+            tgt = a.targets[0] if isinstance(a, ast.Assign) and len(a.targets) == 1 else a.target if isinstance(a, ast.AnnAssign) and a.value is not None else None
+            if not (isinstance(tgt, ast.Name) and isinstance(a.value, ast.Name) and stores.get(tgt.id) == 2 - (0 if isinstance(b, ast.AugAssign) else 1)):
+                continue
+            removed = None
+            if isinstance(b, ast.AugAssign) and isinstance(b.op, ast.Sub) and isinstance(b.target, ast.Name) and b.target.id == tgt.id:
+                removed = b.value
+            elif isinstance(b, ast.Expr) and isinstance(b.value, ast.Call) and isinstance(b.value.func, ast.Attribute) and b.value.func.attr == "difference_update" and isinstance(b.value.func.value, ast.Name) and b.value.func.value.id == tgt.id and len(b.value.args) == 1 and not b.value.keywords:
+                removed = b.value.args[0]
+            if removed is None:
+                continue
+            a.value = ast.copy_location(ast.BinOp(left=a.value, op=ast.Sub(), right=removed), a.value)
+            blk.remove(b)
+            i -= 1
+
+
 def _propagate_copies(fn: ast.AST, params: set[str]) -> None:
     """`x = y` (two local names) where x is bound only here, every read of x comes later inside the block the statement is in, and
     y is never bound after the statement: x is y wherever it is read - the reads are renamed and the statement dropped.  (What a
@@ -2344,6 +2372,7 @@ def search_view(repo: Repo, fi: FuncInfo) -> FuncInfo:
     node.body = _split_tuple_assigns(node.body)
     _project_tuples(node)
     node.body = _thread_none_exits(node.body)
+    _fold_inplace_differences(node)
     _eliminate_aliases(node, set(fi.param_names))
     _propagate_copies(node, set(fi.param_names))
     _remaining_sets_to_visited(node, set(fi.param_names))
